@@ -57,6 +57,12 @@ func (e *Engine) VerifyFunc(fn *ssa.Function, fc *FuncContract) (res *FuncResult
 		ctx.Fact(ctx.typeFacts(a, p.Type(), st.alloc))
 		args = append(args, a)
 		f.params = append(f.params, a)
+		if _, isIface := p.Type().Underlying().(*types.Interface); isIface && !(i == 0 && fn.Signature.Recv() != nil) && (fc == nil || !fc.Nilable[p.Name()]) {
+			if p.Type().String() != "error" {
+				ctx.Fact(fmt.Sprintf("(not (= (ityp %s) 0))", a))
+				e.note("interface-typed parameters (other than error) are assumed non-nil unless the contract says nilable <name>")
+			}
+		}
 		if i == 0 && fn.Signature.Recv() != nil {
 			if _, isPtr := p.Type().Underlying().(*types.Pointer); isPtr && (fc == nil || !fc.NilableRecv) {
 				ctx.Fact(Not(Eq(a, "nil")))
